@@ -21,7 +21,7 @@ ASSUMPTIONS = ["charge groups compared up to one constant per block instance",
 CASE_TIMEOUT = 60
 WALL = {"quick": 900, "thorough": 7200}
 REQUIRED = {"residues_checked": 200, "block_interactions_checked": 200, "multi_residue_cases": 5,
-            "offset_cases": 20, "mods_cases": 5, "library_cases": 100, "default_termini_atoms": 10, "dsdna_cases": 50,
+            "offset_cases": 20, "mods_cases": 5, "modification_interactions_checked": 20, "library_cases": 100, "default_termini_atoms": 10, "dsdna_cases": 50,
             "dsdna_cases_ids_not_from_one": 15}
 
 
@@ -221,6 +221,8 @@ def run_mods(cid, rng, workdir, res):
                  "[ bonds ]", 'BB SC1 1 0.333 777 {"version": 7}']
     mods = []
     mod_defs = {}
+    mod_angles = {}
+    can_angle = (not rename) and all(len(b["atoms"]) >= 3 for b in blocks if b["name"] in names)
     for mname in ("N-ter", "C-ter", "XMOD"):
         atoms = ["BB"] if rng.random() < 0.6 else ["BB", "SC1"]
         repl = {a: {"atype": rng.choice(["Qd", "Qa", "P9"]), "charge": rng.choice([1.0, -1.0])} for a in atoms}
@@ -228,6 +230,13 @@ def run_mods(cid, rng, workdir, res):
         mods += ["[ modification ]", mname, "[ atoms ]"]
         for a, r in repl.items():
             mods.append('%s {"resname": "%s", "replace": %s}' % (a, "|".join(names), __import__("json").dumps(r)))
+        if can_angle and rng.random() < 0.5:
+            # the modification also defines an interaction over three of the atoms it names
+            for a in ("BB", "SC1", "SC2"):
+                if a not in repl:
+                    mods.append('%s {"resname": "%s"}' % (a, "|".join(names)))
+            mod_angles[mname] = ["1", str(rng.randint(91, 179)), str(rng.randint(11, 99))]
+            mods += ["[ angles ]", "BB SC1 SC2 " + " ".join(mod_angles[mname])]
     text = "\n".join(FF.render_blocks_ff(blocks) + link + mods) + "\n"
     n = rng.randint(2, 7)
     start = rng.choice([1, 1, 3, 10])
@@ -281,6 +290,24 @@ def run_mods(cid, rng, workdir, res):
     exp = {"with": expect([(nd, mn) for _, mn, nd in modspec]),
            "default": expect([(first, "N-ter"), (last, "C-ter")])}
     bdict = {b["name"]: b for b in blocks}
+    # interactions a modification defines: on the atoms it names, in the residue it is applied to, all atoms kept
+    applied = {"with": [(nd, mn) for _, mn, nd in modspec], "default": [(first, "N-ter"), (last, "C-ter")]}
+    for tag, obs in runs.items():
+        idx_of, pos = {}, 0
+        for nd in graph["nodes"]:
+            for a in bdict[nd["resname"]]["atoms"]:
+                pos += 1
+                idx_of[(nd["resid"], a["name"])] = pos
+        have = {(tuple(ats), tuple(str(x) for x in prm)) for (ats, prm, _c) in obs["inter"].get("angles", {})}
+        for nd, mn in applied[tag]:
+            if mn in mod_angles and nd["resname"] != "LNK":
+                bump(res, "modification_interactions_checked")
+                want_at = tuple(idx_of[(nd["resid"], a)] for a in ("BB", "SC1", "SC2"))
+                if not any(ats in (want_at, want_at[::-1]) and list(prm) == mod_angles[mn] for ats, prm in have):
+                    near = sorted(x for x in have if x[0][0] in want_at)[:4]
+                    violation(res, "modification-interaction-not-on-its-atoms", "[%s run] modification %s on residue %s%d "
+                              "defines the angle BB SC1 SC2 = atoms %s with %s; the file has %s" %
+                              (tag, mn, nd["resname"], nd["resid"], want_at, mod_angles[mn], near), PCm.witness(case))
     for tag, obs in runs.items():
         pos = 0
         for nd in graph["nodes"]:
